@@ -1633,6 +1633,240 @@ def c14_docs(dm):
     return pdoc, inv
 
 
+# ---------------------------------------------------------------------------------------------
+# Platform.tla: invoke x timers x cancellation cascade (parent P, child C, grandchild G); TracePlatform.tla
+# ---------------------------------------------------------------------------------------------
+PF_HALF_MS = 20
+
+
+def pf_docs(dm="rfsm-expression"):
+    hdr = '<scxml xmlns="http://www.w3.org/2005/07/scxml" version="1.0" datamodel="%s" name="%s">'
+
+    def sender(lvl, pre, up, extra=""):
+        """transitions of a child at level lvl (commands pre.send / pre.arm.<d> / pre.fin), events go up as <up>.now / <up>.timer"""
+        out = ""
+        forms = [("send", "now", "")] + [("arm.%d" % d, "timer", ' delay="%dms"' % (d * PF_HALF_MS)) for d in (1, 3)]
+        for (cmd, kind, attr) in forms:
+            out += ('<transition event="%s.%s"><assign location="n" expr="n + 1"/><script>mark(\'S0\', \'%s\', gen, n, \'%s\')</script>'
+                    '<send target="#_parent" event="%s.%s"%s><param name="gen" expr="gen"/><param name="lvl" expr="\'%s\'"/>'
+                    '<param name="i" expr="n"/><param name="kind" expr="\'%s\'"/></send>'
+                    '<script>mark(\'S1\', \'%s\', gen, n, \'%s\')</script></transition>') % (pre, cmd, lvl, kind, up, kind, attr, lvl, kind, lvl, kind)
+        out += '<transition event="%s.fin" target="f"><script>mark(\'FIN\', \'%s\', gen)</script></transition>' % (pre, lvl)
+        return out
+    gdoc = (hdr % (dm, "G")) + '<datamodel><data id="gen" expr="0"/><data id="n" expr="0"/></datamodel><state id="c">' \
+        '<onentry><script>mark(\'cstart\', \'G\', gen)</script></onentry>' + sender("G", "g", "gup") + \
+        '<transition event="*"><script>mark(\'other\', _event.name)</script></transition></state><final id="f"/></scxml>'
+    cdoc = (hdr % (dm, "C")) + '<datamodel><data id="gen" expr="0"/><data id="n" expr="0"/></datamodel><state id="c">' \
+        '<onentry><script>mark(\'cstart\', \'C\', gen)</script></onentry>' \
+        '<invoke type="scxml" id="gkid"><param name="gen" expr="gen"/><content>' + gdoc + '</content></invoke>' + sender("C", "k", "up") + \
+        '<transition event="g.*"><send target="#_gkid" eventexpr="_event.name"/></transition>' \
+        '<transition event="gup.*"><script>mark(\'R\', _event.data.gen, _event.data.i, _event.data.kind)</script>' \
+        '<send target="#_parent" event="up.relay"><param name="gen" expr="_event.data.gen"/><param name="lvl" expr="\'G\'"/>' \
+        '<param name="i" expr="_event.data.i"/><param name="kind" expr="_event.data.kind"/></send></transition>' \
+        '<transition event="done.invoke.gkid"><script>mark(\'gdone\', gen)</script></transition>' \
+        '<transition event="error.*"><script>mark(\'err\', _event.name)</script></transition>' \
+        '<transition event="*"><script>mark(\'other\', _event.name)</script></transition></state><final id="f"/></scxml>'
+    up = '<transition event="up.*"><script>mark(\'ev\', _event.data.gen, _event.data.lvl, _event.data.i, _event.data.kind, _event.invokeid)</script></transition>' \
+         '<transition event="done.invoke.kid"><script>mark(\'done\', _event.name)</script></transition>' \
+         '<transition event="probe"><script>mark(\'probe\', g)</script></transition>' \
+         '<transition event="error.*"><script>mark(\'err\', _event.name)</script></transition>'
+    pdoc = (hdr % (dm, "P")) + '<datamodel><data id="g" expr="0"/></datamodel>' \
+        '<state id="s0"><transition event="enter" target="sA"><assign location="g" expr="g + 1"/></transition>' + up + \
+        '<transition event="*"><script>mark(\'other\', _event.name)</script></transition></state>' \
+        '<state id="sA"><invoke type="scxml" id="kid"><param name="gen" expr="g"/><content>' + cdoc + '</content></invoke>' \
+        '<transition event="leave" target="s0"/>' \
+        '<transition event="k.* g.*"><send target="#_kid" eventexpr="_event.name"/></transition>' + up + \
+        '<transition event="*"><script>mark(\'other\', _event.name)</script></transition></state></scxml>'
+    return pdoc
+
+
+PF_HAND = {
+    # commands (op, d, t in half ticks); ops as in Platform.tla
+    "timer-then-leave": [("enter", 0, 0), ("k.arm", 3, 2), ("leave", 0, 4)],
+    "timer-then-fin": [("enter", 0, 0), ("k.arm", 3, 2), ("k.arm", 1, 2), ("k.fin", 0, 4), ("leave", 0, 8)],
+    "grand-timer-then-leave": [("enter", 0, 0), ("g.arm", 3, 2), ("g.send", 0, 2), ("leave", 0, 4), ("enter", 0, 6), ("g.send", 0, 8)],
+    "grand-fin": [("enter", 0, 0), ("g.send", 0, 2), ("g.arm", 1, 2), ("g.fin", 0, 4), ("g.send", 0, 6), ("k.send", 0, 6), ("leave", 0, 8)],
+    "child-fin-with-grandchild-traffic": [("enter", 0, 0), ("g.arm", 1, 2), ("g.arm", 3, 2), ("k.fin", 0, 2), ("g.send", 0, 4), ("leave", 0, 8)],
+    "reenter-with-old-timers": [("enter", 0, 0), ("k.arm", 3, 2), ("g.arm", 3, 2), ("leave", 0, 2), ("enter", 0, 4), ("k.send", 0, 4), ("g.send", 0, 6), ("leave", 0, 10)],
+    "relay-under-cancel": [("enter", 0, 0), ("g.send", 0, 2), ("g.send", 0, 2), ("g.send", 0, 2), ("leave", 0, 2), ("enter", 0, 2), ("g.send", 0, 2)],
+    "stay": [("enter", 0, 0), ("k.send", 0, 2), ("g.send", 0, 2), ("k.arm", 1, 2), ("g.arm", 3, 4), ("k.send", 0, 6)],
+}
+
+
+# the same under a schedule perturbation: a session thread that holds no lock sleeps 80 ms before it locks the executor state
+# (i.e. between the end of its interpreter loop and the removal of the session, after which its Fsm and timer are dropped)
+PF_SLOW = {
+    "fin-slow-drop": [("enter", 0, 0), ("k.arm", 3, 2), ("k.fin", 0, 3)],
+    "cancel-slow-drop": [("enter", 0, 0), ("k.arm", 3, 2), ("k.send", 0, 2), ("leave", 0, 3), ("enter", 0, 4), ("k.send", 0, 12)],
+    "grand-fin-slow-drop": [("enter", 0, 0), ("g.arm", 3, 2), ("g.fin", 0, 3), ("k.send", 0, 10)],
+}
+
+
+def pf_job(jid, cmds, rng, jitter=False):
+    steps = [{"start": "P"}, {"settle": 30}]
+    tprev = cmds[0]["t"] if cmds else 0
+    for c in cmds:
+        if c["t"] > tprev:
+            steps.append({"sleep": (c["t"] - tprev) * PF_HALF_MS})
+            tprev = c["t"]
+        elif jitter:
+            steps.append({"sleep_us": rng.randint(0, 2500)})
+        ev = c["op"] if c["op"] in ("enter", "leave") else ("%s.%d" % (c["op"], c["d"]) if c["op"].endswith(".arm") else c["op"])
+        steps.append({"send": "P", "event": ev})
+        if ev == "enter" and not jitter:
+            steps.append({"settle": 50})        # the child and the grandchild are up before the next command (not with jitter)
+    steps += [{"sleep": 4 * PF_HALF_MS + 150}, {"settle": 60}, {"send": "P", "event": "probe"}, {"settle": 40}]
+    return {"id": jid, "sessions": [{"name": "P", "xml": pf_docs()}], "steps": steps, "timeout_ms": 60000}
+
+
+def pf_extract(r):
+    """recorded scenario -> facts for TracePlatform.tla"""
+    pidx = [n for n in r["names"] if n[0] == "P"][0][1]
+    logs = {sl["idx"]: sl for sl in r["sessions"]}
+    p = []
+    kids = []
+    for x in logs[pidx]["recs"]:
+        ts = x[-1]
+        if x[0] == "E" and x[1] == "sA":
+            p.append({"k": "enter", "gen": 0, "lvl": "", "i": 0, "kind": "", "ts": ts})
+        elif x[0] == "X" and x[1] == "sA":
+            p.append({"k": "exit", "gen": 0, "lvl": "", "i": 0, "kind": "", "ts": ts})
+        elif x[0] == "M" and x[1] == "ev":
+            a = [tracelib.val_str(v) for v in x[2]]
+            p.append({"k": "ev", "gen": int(a[0]), "lvl": a[1], "i": int(a[2]), "kind": a[3], "ts": ts})
+        elif x[0] == "M" and x[1] == "done":
+            p.append({"k": "done", "gen": 0, "lvl": "", "i": 0, "kind": "", "ts": ts})
+        elif x[0] == "M" and x[1] == "probe":
+            p.append({"k": "probe", "gen": 0, "lvl": "", "i": 0, "kind": "", "ts": ts})
+    for idx, sl in logs.items():
+        if idx == pidx:
+            continue
+        lvl, gen, sends, open_s, nch, ncmd, cancelled, tend, fin = "?", 0, [], {}, 0, 0, False, 0, False
+        seq = []
+        for x in sl["recs"]:
+            ts = x[-1]
+            if x[0] == "M":
+                a = [tracelib.val_str(v) for v in x[2]]
+                if x[1] == "cstart":
+                    lvl, gen = a[0], int(a[1])
+                elif x[1] == "S0":
+                    open_s[(a[2], a[3])] = ts
+                elif x[1] == "S1":
+                    sends.append({"i": int(a[2]), "kind": a[3], "t0": open_s.pop((a[2], a[3])), "t1": ts})
+                elif x[1] == "FIN":
+                    fin = True
+                elif x[1] in ("R", "gdone"):
+                    seq.append(x[1])
+            elif x[0] == "CH":
+                nch += 1
+            elif x[0] == "XR":
+                if x[1]["name"] == "error.platform.cancel":
+                    cancelled = True
+                elif x[1]["name"].split(".")[0] in ("k", "g"):
+                    ncmd += 1
+            elif x[0] == "END":
+                tend = ts
+        kids.append({"lvl": lvl, "gen": gen, "sends": sends, "nch": nch, "ncmd": ncmd, "cancelled": cancelled, "tend": tend,
+                     "fin": fin, "ended": bool(sl["ended"]), "seq": seq})
+    kids.sort(key=lambda k: (k["lvl"], k["gen"]))
+    return {"p": p, "kids": kids, "horizon": r["horizon"], "half": PF_HALF_MS * 1000}
+
+
+PF_C14 = {"event-after-cancel", "event-after-done", "done-invoke-stray", "child-count", "nested-invoke-starts", "orphan-session",
+          "event-never-sent", "duplicate", "lost-event", "event-of-unknown-generation", "unknown-session"}
+PF_C16 = {"timer-after-termination"}
+
+
+def platform_family(prop, tier, seed, wd, V, owned, model=True):
+    """scenarios generated from Platform.tla (simulation) + directed ones, judged by TracePlatform.tla; only the classes in
+    `owned` are reported for this property.  Returns statistics for the evidence."""
+    rng = random.Random(seed + 77)
+    mc = live = {"distinct": 0, "states": 0}
+    if model:
+        # quick: 2 generations, 4 commands, 2 half ticks (74 k states); thorough: 5 commands, 4 half ticks (1.05 M states, liveness apart)
+        big = {} if tier == "quick" else {"MaxCmds": "5", "MaxTime": "4"}
+        mc = vlib.run_tlc("Platform", "Platform.cfg", wd, timeout=2400, workers=8, consts=big)
+        mc["text"] = ""
+        live = vlib.run_tlc("Platform", "PlatformLive.cfg", wd, timeout=1800, workers=6)
+        live["text"] = ""
+        # the three known-wrong mechanisms must stay refuted (the model has to be able to tell them apart)
+        for (const, inv) in (("Cascade", "NoOrphan"), ("DiscardTimers", "DeadHasNoTimer"), ("AtomicExit", "DoneOnceAndLast")):
+            if not vlib.run_tlc("Platform", "Platform.cfg", wd, timeout=900, workers=6, consts={const: "FALSE"}, expect_violation=inv)["refuted"]:
+                raise ToolError("%s: Platform.tla no longer refutes %s = FALSE (%s)" % (prop, const, inv))
+    nsim = 30 if tier == "quick" else 300
+    sim = vlib.run_tlc("Platform", "PlatformSim.cfg", wd, workers=1, timeout=900, simulate=(nsim * 25, 120, seed + 5))
+    behaviours, seen = [], set()
+    for t in vlib.tlc_tuples(sim["text"], "REPLAY"):
+        v = vlib.parse_tla_value(t)
+        if v[1] not in seen and len(behaviours) < nsim:
+            seen.add(v[1])
+            behaviours.append(json.loads(v[1]))
+    sim["text"] = ""
+    if not behaviours:
+        raise ToolError("%s: TLC simulation of Platform.tla produced no behaviour" % prop)
+    jobs, meta = [], {}
+    reps = 2 if tier == "quick" else 10
+    for name, cs in PF_HAND.items():
+        for rep in range(reps):
+            jid = len(jobs) + 1
+            cmds = [dict(op=c[0], d=c[1], t=c[2]) for c in cs]
+            jobs.append(pf_job(jid, cmds, rng, jitter=rep % 2 == 1))
+            meta[jid] = ("hand:" + name, cmds)
+    for b in behaviours:
+        jid = len(jobs) + 1
+        jobs.append(pf_job(jid, b, rng, jitter=jid % 2 == 1))
+        meta[jid] = ("tlc", b)
+    slow_jobs = []
+    for name, cs in PF_SLOW.items():
+        for rep in range(reps):
+            jid = len(jobs) + 1
+            cmds = [dict(op=c[0], d=c[1], t=c[2]) for c in cs]
+            j = pf_job(jid, cmds, rng)
+            j.update(locks=True, slow=["fsm_", "ExecutorState", 80])
+            jobs.append(j)
+            slow_jobs.append(j)
+            meta[jid] = ("hand:" + name, cmds)
+    res = run_scen_jobs([j for j in jobs if j not in slow_jobs], wd, name="pf", threads=6)
+    res.update(run_scen_jobs(slow_jobs, wd, name="pfslow", threads=1))
+    again = [j for j in jobs if any(not sl["ended"] for sl in res[j["id"]]["sessions"]) and not res[j["id"]].get("stalls")]
+    if again:
+        res.update(run_scen_jobs(again, wd, name="pfagain", threads=1))
+    scens = []
+    for j in jobs:
+        r = res[j["id"]]
+        if r.get("errors"):
+            raise ToolError("%s platform scenario %s: %s" % (prop, meta[j["id"]][0], r["errors"]))
+        sc = pf_extract(r)
+        sc["jid"] = j["id"]
+        scens.append(sc)
+        if r.get("panics") or r.get("other_panics") or r.get("stalls"):
+            V.report("session-failure:platform:%s" % meta[j["id"]][0], "panic or stall in platform scenario %s" % meta[j["id"]][0],
+                     {"result": {k2: r.get(k2) for k2 in ("panics", "other_panics", "stalls")}, "commands": meta[j["id"]][1]})
+    with open(os.path.join(wd, "pftraces.ndjson"), "w") as f:
+        for sc in scens:
+            f.write(json.dumps({k2: sc[k2] for k2 in ("p", "kids", "horizon", "half")}) + "\n")
+    tv = vlib.run_tlc("TracePlatform", "TracePlatform.cfg", wd, env={"TRACES": "pftraces.ndjson"}, timeout=1500)
+    acc = len(vlib.tlc_tuples(tv["text"], "ACCEPT"))
+    other = 0
+    for t in vlib.tlc_tuples(tv["text"], "REJECT"):
+        v = vlib.parse_tla_value(t)
+        sc = scens[v[1] - 1]
+        name, cmds = meta[sc["jid"]]
+        if v[2] in owned:
+            V.report("platform:%s:%s" % (v[2], name if name.startswith("hand:") else "tlc-behaviour"),
+                     "%s in platform scenario %s" % (v[2], name), {"class": v[2], "scenario": name, "commands": cmds,
+                                                                   "facts": {k2: sc[k2] for k2 in ("p", "kids")}})
+        else:
+            other += 1
+    tv["text"] = ""
+    if acc == 0 and not V.violations:
+        raise ToolError("%s: no platform scenario accepted" % prop)
+    nev = sum(1 for sc in scens for x in sc["p"] if x["k"] == "ev")
+    return {"states": mc["distinct"] + live["distinct"] + tv["distinct"], "transitions": mc["states"] + live["states"] + tv["states"],
+            "accepted": acc, "scenarios": len(scens), "behaviours": len(behaviours), "events": nev,
+            "sessions": sum(len(sc["kids"]) for sc in scens), "foreign_rejects": other}
+
+
 @check("C14")
 def c14(tier, seed):
     t0 = time.time()
@@ -1788,14 +2022,18 @@ def c14(tier, seed):
                      {"result": {k2: res[sc["jid"]].get(k2) for k2 in ("panics", "other_panics", "stalls")}})
     if acc == 0 and not V.violations:
         raise ToolError("C14: nothing accepted")
+    pf = platform_family("C14", tier, seed, wd, V, PF_C14)
     rc = V.finish()
-    cov = {"states": mc["distinct"] + tv["distinct"], "transitions": mc["states"] + tv["states"], "traces_validated_against_impl": acc,
+    cov = {"states": mc["distinct"] + tv["distinct"] + pf["states"], "transitions": mc["states"] + tv["states"] + pf["transitions"],
+           "traces_validated_against_impl": acc + pf["accepted"], "platform": pf,
            "samples": [{"scenario": meta[scens[0]["jid"]][0], "parent_records": [[x["k"], x["a"], x["b"]] for x in scens[0]["p"][:25]]}],
            "evaluations": len(scens), "distinct_nontrivial": sum(len(sc["kids"]) for sc in scens),
            "rule": "Invoke.tla model-checked (all orders of child events, completion and cancellation; InvokeOncePerStableEntry, "
                    "NothingAfterCancel, DoneInvokeOnceAndLast); %d recorded parent/child scenarios (10 scripts incl. transient state, "
                    "re-entry, rapid enter/leave, finish racing leave, cancellation under traffic) validated by TraceC14.tla; "
-                   "non-trivial = child sessions started" % len(scens)}
+                   "non-trivial = child sessions started.  Platform.tla (parent, child, grandchild; timers, cancellation cascade, "
+                   "two-step exit) model-checked with its three refuted variants; %d behaviours simulated from it + directed "
+                   "scenarios (%d in all) run in the interpreter and judged by TracePlatform.tla" % (len(scens), pf["behaviours"], pf["scenarios"])}
     vlib.write_evidence("C14", tier, seed, "model_checking", cov, time.time() - t0, len(V.violations),
                         ["child creation is observed as the creation of the child's Fsm on the parent's thread (tracer factory)",
                          "schedules are steered by settle pauses and jitter, not enumerated"])
@@ -2070,8 +2308,10 @@ def c16(tier, seed):
                      {"result": {k2: r.get(k2) for k2 in ("panics", "other_panics", "stalls")}, "commands": meta[sc["jid"]][2]})
     if acc == 0 and not V.violations:
         raise ToolError("C16: nothing accepted")
+    pf = platform_family("C16", tier, seed, wd, V, PF_C16, model=False)
     rc = V.finish()
-    cov = {"states": mc["distinct"] + tv["distinct"], "transitions": mc["states"] + tv["states"], "traces_validated_against_impl": acc,
+    cov = {"states": mc["distinct"] + tv["distinct"] + pf["states"], "transitions": mc["states"] + tv["states"] + pf["transitions"],
+           "traces_validated_against_impl": acc + pf["accepted"], "platform": pf,
            "samples": [{"scenario": meta[scens[0]["jid"]][0], "commands": meta[scens[0]["jid"]][2], "sends": scens[0]["sends"][:3],
                         "recvs": scens[0]["recvs"][:3]}],
            "evaluations": len(scens), "distinct_nontrivial": stats[0],
